@@ -179,7 +179,19 @@ func lexgenRun(c *Ctx, variant string) {
 				c.Count("modes-validated")
 			}
 			all := strings.Join(modeStrs, " ; ")
-			c.Emit("lex.wfmodes "+all, "ok")
+			emptyOK := false
+			for _, m := range s.Modes {
+				for _, ru := range m.Rules {
+					emptyOK = emptyOK || s.nullable(ru.Expr)
+				}
+			}
+			if emptyOK {
+				// a start state that accepts is outside the premise of the progress theorems (known finding K3 is
+				// what happens without a mode action); table validator, runtime model and oracle still run
+				c.Count("specs-with-empty-matchable-rule")
+			} else {
+				c.Emit("lex.wfmodes "+all, "ok")
+			}
 			c.Emit("@let "+p.Name+" "+all, "let")
 			nin := 30
 			if c.Tier == "thorough" {
